@@ -223,11 +223,26 @@ def gen_send(rng, idx):
     return s.out()
 
 
+def sized_bpub(msg, qos, total):
+    """a broker PUBLISH whose encoded size (fixed header included) is exactly `total` bytes"""
+    import mqttenc as E
+    topic = "in/" + msg
+    for fill in range(0, total):
+        if len(E.publish(topic, msg + "|" + "z" * fill, qos, pid=1)) == total:
+            return dict(op="bpub", qos=qos, msg=msg, topic=topic, fill="z" * fill)
+    return dict(op="bpub", qos=qos, msg=msg)
+
+
 def gen_recv(rng, idx):
     s = Sc(rng, "recv-%d" % idx)
     r = rng
-    s.cfg(hosts=r.choice([1, 2]), ka=r.choice([0, 30]), tseed=r.randrange(1, 1 << 30))
+    mps = r.choice([None, None, 64, 200, 1000])     # Maximum Packet Size the CLIENT announces in CONNECT
+    kw = dict(cprops=[[39, mps]]) if mps else {}
+    s.cfg(hosts=r.choice([1, 2]), ka=r.choice([0, 30]), tseed=r.randrange(1, 1 << 30), **kw)
     s.run(); s.recv()
+    if mps:
+        for q in (0, 1, 2):
+            if r.random() < 0.7: s.steps.append(sized_bpub("e%d%d" % (idx % 100, q), q, mps - r.choice([0, 0, 1, 2])))
     if r.random() < 0.7: s.sub()
     nb = 0
     for _ in range(r.randrange(3, 14)):
@@ -330,6 +345,8 @@ def gen_connect(rng, idx):
                            props=r.choice([[], [[24, 5]], [[1, 1], [3, "ct"], [38, "wk", "wv"]], [[2, 60], [8, "rt"], [9, {"hex": "0102"}]]]))
     if r.random() < 0.4:
         cfg["cprops"] = r.choice([[[17, 120]], [[33, 10], [39, 4096]], [[34, 5], [25, 1], [23, 1]], [[38, "ck", "cv"], [38, "ck", "cv2"]]])
+    if r.random() < 0.3:
+        cfg["auth"] = dict(method="meth%d" % (idx % 3), rounds=r.choice([0, 0, 1, 2]), fail=r.choice([-1, -1, -1, 0, 1, 2]))
     s.cfg(**cfg)
     for _ in range(r.randrange(0, 4)):
         s.add(op="connack", rc=r.choice([0, 0x80, 0x87, 0x88, 0x89, 0x9f]), sp=r.choice([0, -1]))
@@ -403,6 +420,13 @@ def gen_keepalive(rng, idx):
     s.cfg(hosts=r.choice([1, 2]), ka=ka, tseed=r.randrange(1, 1 << 30))
     ska = r.choice([None, None, 0, 1, 3, 7, 30])
     s.add(op="connack", sticky=1, props=[] if ska is None else [[19, ska]])
+    varying = r.random() < 0.5
+    if varying:
+        # the negotiated keep-alive changes from one connection to the next (Server Keep Alive appears, shrinks, grows,
+        # disappears), on resumed (Session Present 1) and on fresh sessions
+        for _ in range(r.randrange(1, 4)):
+            k2 = r.choice([None, 1, 2, 3, 7, 30, 90])
+            s.add(op="connack", sp=r.choice([1, 1, 0, -1]), props=[] if k2 is None else [[19, k2]])
     s.run()
     k_eff = ka if ska is None else ska
     for _ in range(r.randrange(2, 8)):
@@ -413,6 +437,9 @@ def gen_keepalive(rng, idx):
         elif k < 0.8: s.pub(1)
         elif k < 0.9: s.add(op="bpub", qos=0, msg="k%d" % len(s.steps))
         else: fault_step(s)
+        if varying and r.random() < 0.35:
+            fault_step(s)
+            s.add(op="advance", ms=r.choice([2000, 8000, 31000, 95000]))
     s.add(op="unhold")
     s.quiesce(ms=r.choice([60000, 400000]))
     return s.out()
@@ -549,6 +576,42 @@ def gen_hostile_all(seed, count, full=False):
     return out
 
 
+def gen_session(rng, idx):
+    """subscriptions (succeeding, failing, in flight, cancelled), reconnects with Session Present 0/1, inbound traffic"""
+    s = Sc(rng, "sess-%d" % idx)
+    r = rng
+    s.cfg(hosts=r.choice([2, 3]), ka=0, tseed=r.randrange(1, 1 << 30))
+    if r.random() < 0.15: s.add(op="connack", sp=1)
+    s.run(); s.recv()
+    nb = 0
+    for _ in range(r.randrange(3, 11)):
+        k = r.random()
+        if k < 0.22:
+            s.sub()
+        elif k < 0.34:
+            # a subscription whose SUBACK is outstanding while other things happen
+            if not s.held: s.add(op="hold", kinds=["SUBACK"]); s.held = True
+            s.sub()
+        elif k < 0.42:
+            if s.held: s.add(op="unhold"); s.held = False
+        elif k < 0.50:
+            # a subscription the broker refuses entirely
+            s.add(op="hold", kinds=["SUBACK"]); i = s.sub(n=r.choice([1, 2]))
+            n = len(s.steps[-1]["topics"])
+            s.add(op="ack", i=0, codes=[r.choice([128, 135, 143]) for _ in range(n)]); s.add(op="unhold"); s.held = False
+        elif k < 0.80:
+            s.add(op="connack", sp=r.choice([0, 0, 1, -1]))
+            fault_step(s)
+            if r.random() < 0.5: s.add(op="advance", ms=r.choice([1, 2000, 30000]))
+        elif k < 0.90:
+            nb += 1; s.add(op="bpub", qos=r.choice([0, 1, 2]), msg="y%d" % nb)
+        elif s.live:
+            s.add(op="cancel_op", id=r.choice(s.live), type="total")
+    if s.held: s.add(op="unhold"); s.held = False
+    s.quiesce()
+    return s.out()
+
+
 def gen_misbehave(rng, idx):
     """a broker whose SUBACK / UNSUBACK has the wrong number of reason codes or an inadmissible code (C14 only)"""
     s = Sc(rng, "misb-%d" % idx)
@@ -576,7 +639,7 @@ def gen_misbehave(rng, idx):
     return s.out()
 
 
-FAMILIES = dict(misbehave=gen_misbehave, send=gen_send, recv=gen_recv, lifecycle=gen_lifecycle, connect=gen_connect, caps=gen_caps, keepalive=gen_keepalive)
+FAMILIES = dict(misbehave=gen_misbehave, session=gen_session, send=gen_send, recv=gen_recv, lifecycle=gen_lifecycle, connect=gen_connect, caps=gen_caps, keepalive=gen_keepalive)
 
 
 def generate(family, seed, count):
